@@ -592,6 +592,58 @@ pub fn too_large_error(len: usize) -> (e: Error) { unimplemented!() }
         (res.is_err() && read.data().len() <= 0xffff_ffff) ==> (res->Err_0).has_pos,
 //@end
 
+// ---- Value as a target: Deserializer::deserialize_value. The DOM parser itself is units `decoder` /
+// `decoder_inplace`; here: the reader arithmetic around it (found F19, F24 at this call site)
+#[verifier::external_body]
+pub struct Value { _p: core::marker::PhantomData<()> }
+/// opaque token for the `&mut Shared` the real code obtains through a raw pointer (`Arc::as_ptr(..) as *mut _`, unsafe:
+/// outside Verus)
+#[verifier::external_body]
+pub struct SharedHandle { _p: core::marker::PhantomData<()> }
+impl Value {
+    #[verifier::external_body]
+    pub fn new() -> (v: Value) { unimplemented!() }
+    // the whole-input in-place parse over a padded private copy: the returned offset is what the caller advances its own
+    // reader by. `Ok(n) ==> n <= len` is the F24 repair, checked on the real function by Kani
+    // (dom_entry_past_end_is_error: the in-place parser may stop inside the padding)
+    #[verifier::external_body]
+    pub fn parse_with_padding(&mut self, json: &[u8], cfg: DeserializeCfg) -> (res: Result<usize>)
+        ensures res.is_ok() ==> res->Ok_0 <= json@.len(), res.is_err() ==> (res->Err_0).has_pos,
+    { unimplemented!() }
+    // the embedded parse (copy-out driver parse_dom2: unit `decoder`) on the caller's own parser
+    #[verifier::external_body]
+    pub fn parse_without_padding<'de, R: Reader<'de>>(&mut self, shared: SharedHandle, strbuf: &mut Vec<u8>, parser: &mut Parser<R>) -> (res: Result<()>)
+        requires old(parser).pinv(),
+        ensures final(parser).pinv(), final(parser).same_doc(old(parser)),
+    { unimplemented!() }
+}
+// `String::from_utf8_lossy(json).as_bytes()`: the repaired text (std, T4)
+#[verifier::external_body]
+pub fn lossy_text(json: &[u8]) -> (r: Vec<u8>) { unimplemented!() }
+// the unsafe hand-over of the finished Value to its visitor as raw bytes (`ManuallyDrop` + `visit_bytes`)
+#[verifier::external_body]
+pub fn hand_over_value<'de, V: Visitor<'de>>(visitor: V, val: Value) -> (r: Result<V::Value>) { unimplemented!() }
+
+impl<'de, R: Reader<'de>> Deserializer<R> {
+    #[verifier::external_body]
+    pub fn shared_handle(&mut self) -> (h: SharedHandle)
+        ensures final(self).parser == old(self).parser,
+    { unimplemented!() }
+
+//@extract file=src/serde/de.rs impl="Deserializer<R>" fn=deserialize_value
+//@subst /V: de::Visitor<'de>,/ => V: Visitor<'de>,
+//@subst /val\.parse_with_padding\(String::from_utf8_lossy\(json\)\.as_bytes\(\), cfg\)\?/ => val.parse_with_padding(lossy_text(json).as_slice(), cfg)?
+//@subst /unsafe \{\s*if self\.shared\.is_none\(\) \{\s*self\.shared = Some\(Arc::new\(Shared::default\(\)\)\);\s*\}\s*let shared = self\.shared\.as_mut\(\)\.unwrap\(\);\s*&mut \*\(Arc::as_ptr\(shared\) as \*mut _\)\s*\}/ => self.shared_handle()
+//@subst /let val = ManuallyDrop::new\(val\);/ => let val = val;
+//@subst /unsafe \{\s*let binary =\s*&\*slice_from_raw_parts\(&val as \*const _ as \*const u8, std::mem::size_of::<Value>\(\)\);\s*visitor\.visit_bytes\(binary\)\s*\}/ => hand_over_value(visitor, val)
+//@sig
+        requires old(self).parser.pinv(),
+        // the reader stays inside the input — `eat(n)` after the whole-input parse is in range in both configurations —
+        // and the document is untouched
+        ensures final(self).parser.pinv(), final(self).parser.same_doc(&old(self).parser),
+//@end
+}
+
 // ---- lossy mode (found F19): the offset consumed in the repaired copy of the input is mapped back to the input
 // substitution target for the `match std::str::from_utf8(&json[origin..]) { Ok(s) => (s.len(), 0), Err(e) => (..) }`
 // expression: std's UTF-8 validation (T4) splits the rest into a valid prefix and, if it is not everything, one maximal
